@@ -10,12 +10,14 @@ cp "$REPO/go.sum" harness/go.sum
 (cd harness && go build -tags verif -o ../.work/bin/harness .)
 (cd extract && go build -o ../.work/bin/extract .)
 rm -rf .work/gen.tmp && mkdir -p .work/gen.tmp
-./.work/bin/extract -repo "$REPO" -out .work/gen.tmp
+./.work/bin/harness htmlvocab > .work/htmlvocab.json
+./.work/bin/extract -repo "$REPO" -out .work/gen.tmp -htmlvocab .work/htmlvocab.json
 mkdir -p lean/TabulaModel/Gen
 for f in .work/gen.tmp/*.lean; do
   cmp -s "$f" "lean/TabulaModel/Gen/$(basename "$f")" || cp "$f" "lean/TabulaModel/Gen/$(basename "$f")"
 done
 cp .work/gen.tmp/facts.json .work/facts.json
+cp .work/gen.tmp/gen_errors.json .work/gen_errors.json
 { echo 'import TabulaModel.Util'; for f in lean/TabulaModel/Props/C*.lean; do echo "import TabulaModel.Props.$(basename "$f" .lean)"; done; } > lean/TabulaModel.lean.new
 cmp -s lean/TabulaModel.lean.new lean/TabulaModel.lean || cp lean/TabulaModel.lean.new lean/TabulaModel.lean
 rm -f lean/TabulaModel.lean.new
